@@ -329,6 +329,12 @@ func runMain(args []string) {
 			cfg.Cuts = append(cfg.Cuts, kv[1])
 		case "goskip":
 			cfg.GoSkip = append(cfg.GoSkip, kv[1])
+		case "redirect":
+			ft := strings.SplitN(kv[1], "=>", 2)
+			if cfg.Redirect == nil {
+				cfg.Redirect = map[string]string{}
+			}
+			cfg.Redirect[ft[0]] = ft[1]
 		default:
 			var v int64
 			fmt.Sscan(kv[1], &v)
